@@ -209,7 +209,7 @@ structure WTensD where
   ranges : List WeightLayout.Range
   /-- `hw_traversal == PART_KERNEL_FIRST` of `src_tensor` if set, of the tensor itself otherwise -/
   partKernelFirst : Bool
-deriving Repr, DecidableEq
+deriving Repr, DecidableEq, Inhabited
 
 structure STensD where
   memType : MemT
